@@ -525,4 +525,6 @@ func H_C01_minmax_ranges_cover_after_update_and_merge() {
 //vp:override bs.parseFilterSection=vpParseSectionOK
 //vp:maxsteps 400000
 //vp:bounds as H_C11_merge_preserves_rows_and_describes_its_output
+//vp:override (*bs.BloomSearchEngine).createCompressionWriter=vpCreateCompressionWriterTagged
+//vp:override bs.decodeBlockRowDataInto=vpDecodeTagged
 func H_C01_merged_files_index_the_rows_they_hold() { vpMergedFileBody() }
